@@ -86,10 +86,52 @@ def xor_operands(t):
 
 
 def concat_parts(t):
-    """Flatten a + b + c into [a, b, c]."""
+    """Flatten a + b + c into [a, b, c]; "".join([a, b, c]) / "".join((a, b, c)) is the same concatenation."""
     if t[0] == "binop" and t[1] == "+":
         return concat_parts(t[2]) + concat_parts(t[3])
+    if is_call(t) and t[1][0] == "attr" and t[1][2] == "join" and t[1][1] == ("const", "") and len(t[2]) == 1 and not t[3] and t[2][0][0] in ("list", "tuple") and not any(x[0] == "star" for x in t[2][0][1]):
+        out = []
+        for x in t[2][0][1]:
+            out += concat_parts(x)
+        return out
     return [t]
+
+
+def text_parts(t):
+    """A text expression as a sequence of literal pieces and embedded values, whichever way it is assembled
+    (f-string / format / %, + concatenation, "".join of a display).  None when a field carries a conversion or format spec."""
+    out = []
+
+    def add(x):
+        if x[0] == "const" and isinstance(x[1], str):
+            if out and out[-1][0] == "const":
+                out[-1] = ("const", out[-1][1] + x[1])
+            elif x[1]:
+                out.append(x)
+            return True
+        if x[0] == "fstr":
+            for y in x[1]:
+                if y[0] == "const":
+                    add(("const", str(y[1])))
+                elif y[0] == "fmt" and y[2] is None and y[3] is None:
+                    if not add_val(y[1]):
+                        return False
+                else:
+                    return False
+            return True
+        return add_val(x)
+
+    def add_val(x):
+        if x[0] in ("const", "fstr") or (x[0] == "binop" and x[1] == "+") or (is_call(x) and x[1][0] == "attr" and x[1][2] == "join" and x[1][1] == ("const", "")):
+            ps = concat_parts(x)
+            if len(ps) > 1 or ps[0] is not x:
+                return all(add(p_) for p_ in ps)
+            if x[0] in ("const", "fstr"):
+                return add(x) if x[0] == "fstr" or isinstance(x[1], str) else (out.append(x) or True)
+        out.append(x)
+        return True
+    ok = all(add(p_) for p_ in concat_parts(t))
+    return out if ok else None
 
 
 def slice_of(t):
